@@ -102,7 +102,7 @@ class FluentWorklist(BaseWorklist):
         if len(set(lengths)) != 1:
             raise ValueError(f"Number of source/destination/volumes must be equal. They were {lengths}")
 
-        if np.any(volumes < 0):
+        if not np.all(volumes >= 0):
             raise ValueError(f"Volumes must be positive or zero. They were {volumes}")
 
         # validate both rack labels up front, so that an invalid destination does not leave half a pair behind
